@@ -2,7 +2,6 @@ package main
 
 import (
 	"bytes"
-	"compress/flate"
 	"compress/zlib"
 	"crypto/sha256"
 	"io"
@@ -166,24 +165,17 @@ func hexRuns(b []byte, align int) []byte {
 	return out
 }
 
-// inflatePartial returns whatever a zlib (or, failing that, raw deflate) decoder yields before it fails.
-func inflatePartial(b []byte) []byte {
-	read := func(r io.Reader) []byte {
-		var buf bytes.Buffer
-		_, _ = io.Copy(&buf, io.LimitReader(r, maxBlob))
-		return buf.Bytes()
+// inflatePartial returns whatever a zlib decoder yields before it fails (PDF's FlateDecode is zlib-wrapped;
+// a stream that skipped encryption is byte-identical to what an unencrypted write produces). complete
+// reports a clean end of the zlib stream (checksum verified).
+func inflatePartial(b []byte) (out []byte, complete bool) {
+	zr, err := zlib.NewReader(bytes.NewReader(b))
+	if err != nil {
+		return nil, false
 	}
-	if zr, err := zlib.NewReader(bytes.NewReader(b)); err == nil {
-		if out := read(zr); len(out) > 0 {
-			return out
-		}
-	}
-	if len(b) > 0 {
-		if out := read(flate.NewReader(bytes.NewReader(b))); len(out) >= 8 {
-			return out
-		}
-	}
-	return nil
+	var buf bytes.Buffer
+	_, err = io.Copy(&buf, io.LimitReader(zr, maxBlob))
+	return buf.Bytes(), err == nil
 }
 
 var (
@@ -255,8 +247,8 @@ func searchPDF(data []byte) (hits, searchStats) {
 		if depth > 3 || len(b) == 0 {
 			return
 		}
-		if out := inflatePartial(b); len(out) > 0 {
-			if depth == 0 {
+		if out, complete := inflatePartial(b); len(out) > 0 {
+			if depth == 0 && complete {
 				st.InflatedBlind++
 			}
 			st.Blobs++
